@@ -26,6 +26,18 @@
 (* when the parameters match the placeholders; the data never change;      *)
 (* positional parameters bind left to right by TEXT position.              *)
 (* Folding: Eval(Fold(e), row) = Eval(e, row).                             *)
+(*                                                                         *)
+(* STATEMENT CACHE.  A connection may keep compiled statements (the text   *)
+(* with its parameters bound) for re-use by execute(text, params), the way *)
+(* sqlite3 does.  CacheMode =                                              *)
+(*   "none"   no cache (the code as shipped);                              *)
+(*   "exact"  key = (text, the parameters as BQL values): a legal          *)
+(*            optimisation, the property holds;                            *)
+(*   "host"   key = (text, the parameters as the HOST language compares    *)
+(*            and hashes them: True == 1, False == 0): the deliberately    *)
+(*            broken mechanism of a non-vacuity run -- the second of       *)
+(*            execute(text, (1,)); execute(text, (TRUE,)) returns the      *)
+(*            statement compiled for the first.                            *)
 (***************************************************************************)
 EXTENDS BQLMiniSem
 
@@ -39,6 +51,7 @@ CONSTANTS
     MaxCalls
 
 NStmts == Len(Stmts)
+CacheMode == "none"     \* overridden (CacheMode <- ..) by the configurations that model a statement cache
 
 (* ---- placeholder names ---- *)
 NoName == [kind |-> "none", i |-> 0, id |-> ""]
@@ -130,14 +143,20 @@ BindOp(names, p) == [pos \in DOMAIN names |-> IF names[pos].kind = "idx" THEN p.
                                               ELSE MapGet(p, names[pos].id)]
 RunOp(q, binding, tabs) == Denote(SubstQ(q, binding), tabs)
 
+(* the key under which a connection-level statement cache files execute(text s, p) *)
+KeyVal(v) == IF CacheMode = "host" /\ v[1] = "b" THEN <<"i", v[2]>> ELSE v          \* hash(True) = hash(1), True == 1
+CacheKey(s, p) == <<s, p.kind, [i \in 1..Len(p.seq) |-> KeyVal(p.seq[i])],
+                    {<<p.map[i][1], KeyVal(p.map[i][2])>> : i \in 1..Len(p.map)}>>     \* tuple(p) / frozenset(p.items())
+
 -----------------------------------------------------------------------------
 VARIABLES
     stmts,      \* [1..NStmts -> [parsed |-> BOOLEAN, names |-> pos -> name]]  the parsed statement objects
     data,       \* the tables
     results,    \* the last completed call: [n, op, s, ps, res]
-    cur         \* the call in progress: [phase |-> "idle" | "number" | "bind" | "run", ...]
+    cur,        \* the call in progress: [phase |-> "idle" | "number" | "bind" | "run", ...]
+    cache       \* the connection's statement cache: CacheKey |-> the bound placeholders of the compiled statement
 
-vars == <<stmts, data, results, cur>>
+vars == <<stmts, data, results, cur, cache>>
 
 EmptyFn == [x \in {} |-> 0]
 Idle == [phase |-> "idle", op |-> "", s |-> 0, shared |-> FALSE, tmp |-> EmptyFn, ps |-> <<>>, k |-> 0, bound |-> EmptyFn]
@@ -147,6 +166,7 @@ Init ==
     /\ data = Data
     /\ results = [n |-> 0, op |-> "", s |-> 0, ps |-> <<>>, res |-> ErrorResult]
     /\ cur = Idle
+    /\ cache = EmptyFn
 
 Text(s) == Stmts[s].q
 ObjNames == IF cur.shared THEN stmts[cur.s].names ELSE cur.tmp
@@ -156,25 +176,29 @@ Param == StmtParams[cur.s][cur.ps[cur.k]]
 Parse(s) ==
     /\ cur.phase = "idle" /\ results.n < MaxCalls
     /\ stmts' = [stmts EXCEPT ![s] = [parsed |-> TRUE, names |-> FreshNames(Text(s))]]
-    /\ UNCHANGED <<data, results, cur>>
+    /\ UNCHANGED <<data, results, cur, cache>>
 
 (* cursor.execute(statement object, p) *)
 Execute(s, i) ==
     /\ cur.phase = "idle" /\ results.n < MaxCalls /\ stmts[s].parsed
     /\ cur' = [Idle EXCEPT !.phase = "number", !.op = "execute", !.s = s, !.shared = TRUE, !.ps = <<i>>, !.k = 1]
-    /\ UNCHANGED <<stmts, data, results>>
+    /\ UNCHANGED <<stmts, data, results, cache>>
 
-(* cursor.execute(text, p) *)
+(* cursor.execute(text, p): a statement found in the cache is run as it was compiled; otherwise parse, number, bind
+   (Bind files the compiled statement) *)
 ExecuteText(s, i) ==
     /\ cur.phase = "idle" /\ results.n < MaxCalls
-    /\ cur' = [Idle EXCEPT !.phase = "number", !.op = "text", !.s = s, !.tmp = FreshNames(Text(s)), !.ps = <<i>>, !.k = 1]
-    /\ UNCHANGED <<stmts, data, results>>
+    /\ LET key == CacheKey(s, StmtParams[s][i]) IN
+       IF CacheMode # "none" /\ key \in DOMAIN cache
+       THEN cur' = [Idle EXCEPT !.phase = "run", !.op = "text", !.s = s, !.ps = <<i>>, !.k = 1, !.bound = cache[key]]
+       ELSE cur' = [Idle EXCEPT !.phase = "number", !.op = "text", !.s = s, !.tmp = FreshNames(Text(s)), !.ps = <<i>>, !.k = 1]
+    /\ UNCHANGED <<stmts, data, results, cache>>
 
 (* cursor.executemany(text, [p, p']) *)
 ExecuteMany(s, ij) ==
     /\ cur.phase = "idle" /\ results.n < MaxCalls
     /\ cur' = [Idle EXCEPT !.phase = "number", !.op = "many", !.s = s, !.tmp = FreshNames(Text(s)), !.ps = ij, !.k = 1]
-    /\ UNCHANGED <<stmts, data, results>>
+    /\ UNCHANGED <<stmts, data, results, cache>>
 
 Finish(res) ==
     /\ results' = [n |-> results.n + 1, op |-> cur.op, s |-> cur.s, ps |-> cur.ps, res |-> res]
@@ -188,11 +212,15 @@ Number ==
                ELSE cur' = [cur EXCEPT !.phase = "bind", !.tmp = r.names] /\ UNCHANGED stmts
             /\ UNCHANGED results
        ELSE Finish(ErrorResult) /\ UNCHANGED stmts                   \* the exception leaves the call
-    /\ UNCHANGED data
+    /\ UNCHANGED <<data, cache>>
 
 Bind ==
     /\ cur.phase = "bind"
     /\ cur' = [cur EXCEPT !.phase = "run", !.bound = BindOp(ObjNames, Param)]
+    /\ cache' = IF CacheMode # "none" /\ cur.op = "text"
+                THEN LET key == CacheKey(cur.s, Param)
+                     IN [x \in (DOMAIN cache) \cup {key} |-> IF x = key THEN BindOp(ObjNames, Param) ELSE cache[x]]
+                ELSE cache
     /\ UNCHANGED <<stmts, data, results>>
 
 Run ==
@@ -201,7 +229,7 @@ Run ==
        IF cur.k < Len(cur.ps)
        THEN cur' = [cur EXCEPT !.phase = "number", !.k = @ + 1, !.bound = EmptyFn] /\ UNCHANGED results
        ELSE Finish(res)
-    /\ UNCHANGED <<stmts, data>>
+    /\ UNCHANGED <<stmts, data, cache>>
 
 Next ==
     \/ \E s \in 1..NStmts : Parse(s)
